@@ -66,6 +66,7 @@ func (c04) Phases() []kit.Phase {
 }
 
 type c04Scenario struct {
+	ViaExec bool          `json:"as_directive,omitempty"` // the goal runs as a directive of a text given to Exec: first answer only, the error comes back from Exec
 	Query   string        `json:"query"`
 	Program string        `json:"program"`
 	Plan    []int         `json:"plan"`
@@ -264,6 +265,7 @@ func c04GenScenario(r *kit.Run) *c04Scenario {
 	}
 	sc.Program = sb.String()
 	sc.Query = c04Text(sc.Goal) + ", anchor(V1, V2, V3, V4)"
+	sc.ViaExec = g.Choose(5) == 0
 	return sc
 }
 
@@ -348,7 +350,19 @@ func (c04) Exec(r *kit.Run) {
 	for i := 0; i < 4; i++ {
 		m.vars = append(m.vars, m.fresh())
 	}
-	wantOutcome := m.run(sc.Goal, 64)
+	maxAnswers := 64
+	if sc.ViaExec {
+		maxAnswers = 1
+	}
+	wantOutcome := m.run(sc.Goal, maxAnswers)
+	if sc.ViaExec {
+		switch {
+		case wantOutcome == "cap" && m.answers == 1 && len(m.events) <= c04MaxEvents:
+			wantOutcome = "first-answer"
+		case wantOutcome == "exhausted":
+			wantOutcome = "failed-directive"
+		}
+	}
 
 	// ---- implementation ----
 	var events []string
@@ -427,23 +441,13 @@ func (c04) Exec(r *kit.Run) {
 	}
 	// the skeletons are finite: a query that needs more than 200000 trampoline steps does not terminate
 	ctx := kit.NewSimCtx(200000, context.Canceled)
-	sols, err := interp.QueryContext(ctx, sc.Query+".")
-	if err != nil {
-		kit.Bug("c04 query does not parse: %v\n%s", err, sc.Query)
-	}
-	answers := 0
 	gotOutcome := ""
-	for sols.Next() {
-		answers++
-		if answers >= 64 || len(events) > c04MaxEvents {
-			gotOutcome = "cap"
-			break
-		}
-	}
-	if gotOutcome == "" {
-		switch err := sols.Err(); {
+	if sc.ViaExec {
+		switch err := interp.ExecContext(ctx, ":- "+sc.Query+".\n"); {
 		case err == nil:
-			gotOutcome = "exhausted"
+			gotOutcome = "first-answer"
+		case strings.HasPrefix(err.Error(), "failed directive"):
+			gotOutcome = "failed-directive"
 		default:
 			if _, ok := err.(engine.Exception); ok {
 				gotOutcome = kit.CanonErr(err)
@@ -451,8 +455,33 @@ func (c04) Exec(r *kit.Run) {
 				gotOutcome = "sys"
 			}
 		}
+	} else {
+		sols, err := interp.QueryContext(ctx, sc.Query+".")
+		if err != nil {
+			kit.Bug("c04 query does not parse: %v\n%s", err, sc.Query)
+		}
+		answers := 0
+		for sols.Next() {
+			answers++
+			if answers >= 64 || len(events) > c04MaxEvents {
+				gotOutcome = "cap"
+				break
+			}
+		}
+		if gotOutcome == "" {
+			switch err := sols.Err(); {
+			case err == nil:
+				gotOutcome = "exhausted"
+			default:
+				if _, ok := err.(engine.Exception); ok {
+					gotOutcome = kit.CanonErr(err)
+				} else {
+					gotOutcome = "sys"
+				}
+			}
+		}
+		sols.Close()
 	}
-	sols.Close()
 	r.Steps(visits + len(events))
 	if ctx.Fired() {
 		r.Fail("runaway", "query-does-not-terminate", "the query did not end within 200000 trampoline steps (the reference model ends with %s after %d events)\n  query: %s\n  program: %s\n  plan: %v\n  first events: %v", wantOutcome, len(m.events), sc.Query, strings.ReplaceAll(sc.Program, "\n", " "), sc.Plan, tail(events, 12))
